@@ -24,6 +24,8 @@
 //     phrase_explain_of_non_matching_doc_before_first_match                          FAILED  panicked at src/query/phrase_query/phrase_scorer.rs:540:9: assertion failed: target >= self.doc()
 //     plain_term_query_explain_value_is_the_score, boolean_query_explain_value_is_the_score,
 //     term_explain_of_non_matching_doc_before_first_match_is_an_error                ok (controls)
+//     observation_many_must_clauses_topdocs_vs_explain                               ok (never fails)  prints: 5 must clauses: 160 hits, 80 with
+//         explain().value() != TopDocs score in the last bit; first (doc 17: topdocs 0.43923435, explain 0.43923432)  [rounding of the sum: allowed by C12]
 //   release build (`--release`): only boosted_term_query_explain_value_is_the_score fails (same 50 mismatches); the E2 tests answer Err.
 use tantivy::collector::TopDocs;
 use tantivy::query::{BooleanQuery, BoostQuery, Occur, Query, TermQuery};
@@ -149,4 +151,38 @@ fn phrase_explain_of_non_matching_doc_before_first_match() {
     let r = std::panic::catch_unwind(std::panic::AssertUnwindSafe(|| q.explain(&searcher, DocAddress::new(0, 0))));
     match &r { Ok(res) => println!("E2 phrase: returned {:?}", res.as_ref().map(|e| e.value()).map_err(|e| e.to_string())), Err(_) => println!("E2 phrase: PANICKED") }
     assert!(matches!(r, Ok(Err(_))), "expected Err(does not match)");
+}
+
+// OBSERVATION (allowed by C12: "up to floating-point rounding of the sum for several clauses"): >= 4 Must term clauses.
+// TopDocs goes through block_wand_intersection: ((s0 + s1) + s2) + s3 ...; explain / any non-pruning collector goes through
+// Intersection::score: (left + right) + ((-0.0 + o0) + o1 ...).  Reports how often the last bit differs; never fails.
+#[test]
+fn observation_many_must_clauses_topdocs_vs_explain() {
+    let mut sb = Schema::builder();
+    let text = sb.add_text_field("text", TEXT);
+    let index = Index::create_in_ram(sb.build());
+    let mut w: IndexWriter = index.writer_with_num_threads(1, 20_000_000).unwrap();
+    let words = ["a", "b", "c", "d", "e"];
+    for i in 0..200u32 {
+        let mut s = String::new();
+        for (k, wd) in words.iter().enumerate() {
+            for _ in 0..(1 + (i as usize * (k + 3)) % (k + 2)) { s.push_str(wd); s.push(' '); }
+        }
+        for _ in 0..(i % 17) { s.push_str("pad "); }
+        if i % 3 == 0 { s.push_str("a a "); }
+        if i % 5 == 0 { s = s.replace("e ", ""); }
+        w.add_document(doc!(text => s)).unwrap();
+    }
+    w.commit().unwrap();
+    let searcher = index.reader().unwrap().searcher();
+    let mk = |t: &str| -> Box<dyn Query> { Box::new(TermQuery::new(Term::from_field_text(text, t), IndexRecordOption::WithFreqs)) };
+    let q = BooleanQuery::new(words.iter().map(|t| (Occur::Must, mk(t))).collect());
+    let top: Vec<(f32, DocAddress)> = searcher.search(&q, &TopDocs::with_limit(500).order_by_score()).unwrap();
+    let mut diff = 0;
+    let mut first = None;
+    for (score, addr) in &top {
+        let e = q.explain(&searcher, *addr).unwrap().value();
+        if e.to_bits() != score.to_bits() { diff += 1; if first.is_none() { first = Some((addr.doc_id, *score, e)); } }
+    }
+    println!("OBS 5 must clauses: {} hits, {} with explain().value() != TopDocs score in the last bit; first (doc, topdocs, explain) = {:?}", top.len(), diff, first);
 }
